@@ -382,6 +382,12 @@ fn record(seed: u64, count: usize, nested: bool, path: &str) {
             };
             out.put(&json!({"ev": "Decoded", "res": dec}));
         }
+        // X02 (extension): the entries fed, in order, to the run-time builder
+        {
+            let mut b = scale_info::PortableRegistryBuilder::new();
+            let ids: Vec<u32> = r.fin.types.iter().map(|pt| b.register_type(pt.ty.clone())).collect();
+            out.put(&json!({"ev": "Rebuild", "types": proj::registry(Mode::Plain, &r.fin), "ids": ids, "rebuilt": proj::registry(Mode::Plain, &b.finish())}));
+        }
         // C11(ii): replay the same history in a fresh registry -> byte-identical encoding
         if let Ok(r2) = run_history(&info, &hist) {
             out.put(&json!({"ev": "Replay", "a": r.fin.encode(), "b": r2.fin.encode()}));
